@@ -193,6 +193,56 @@ fn main()
             }
         }
     }
+    // FEEDBACK PROBES (B): "a re-execution starts from exactly the quantum and classical state in which the previous run
+    // ended", observed through a circuit whose re-execution has a KNOWN register part if and only if every shot's quantum
+    // state is the one that belongs to that shot's classical word: [X on q if c_q = 1, for every q] ; [measure q -> c_(n+q)]
+    // ; [H on every q] ; [measure_all -> c_0..c_(n-1)].  At the end of a run shot s holds |c_0..c_(n-1)>, so in the next run
+    // the conditional X gates return it to |0...0> and the upper bits c_n..c_(2n-1) must all be measured 0 - in every shot,
+    // in every re-execution (from the second re-execution on, several state columns hold the same state before
+    // measure_all and collapse onto coinciding basis states).
+    for &(nq, shots, stab) in [(1usize, 10usize, false), (2, 25, false), (3, 64, false), (4, 100, false), (2, 25, true), (3, 64, true), (5, 200, true)].iter()
+    {
+        for variant in 0..3u64
+        {
+            let mut c = Circuit::new(nq, 2 * nq);
+            let mut ok = true;
+            for q in 0..nq { ok &= c.add_conditional_gate(&[q], 1, q1tsim::gates::X::new(), &[q]).is_ok(); }
+            for q in 0..nq { ok &= c.measure(q, nq + q).is_ok(); }
+            // variant 1: an extra measurement in the middle splits the columns before measure_all; variant 2: entangle first
+            for q in 0..nq { ok &= c.h(q).is_ok(); }
+            if variant == 1 { ok &= c.measure(0, 0).is_ok(); ok &= c.h(0).is_ok(); }
+            if variant == 2 && nq > 1 { for q in 1..nq { ok &= c.cx(q - 1, q).is_ok(); } }
+            let bits: Vec<usize> = (0..nq).collect();
+            ok &= c.measure_all(&bits).is_ok();
+            let seed = rng.next();
+            let mut r = rand_hc::Hc128Rng::seed_from_u64(seed);
+            let mut verdict = if ok { "same".to_string() } else { "reference-not-built".to_string() };
+            if ok
+            {
+                let res = { let cc = std::panic::AssertUnwindSafe(&mut c); let rr = std::panic::AssertUnwindSafe(&mut r);
+                    std::panic::catch_unwind(move || { let std::panic::AssertUnwindSafe(cc) = cc; let std::panic::AssertUnwindSafe(rr) = rr;
+                        let repr = if stab { QuStateRepr::stabilizer(nq, shots) } else { QuStateRepr::vector(nq, shots) };
+                        cc.execute_with(shots, rr, repr)?;
+                        let mut bad: Option<(usize, usize, u64)> = None;
+                        for run in 0..4usize
+                        {
+                            if run > 0 { cc.reexecute_with_rng(rr)?; }
+                            let reg = cc.cstate().map(|a| a.to_vec()).unwrap_or_default();
+                            if reg.len() != shots { bad = Some((run, usize::MAX, reg.len() as u64)); break; }
+                            if let Some(sh) = reg.iter().position(|w| (w >> nq) != 0) { bad = Some((run, sh, reg[sh])); break; }
+                        }
+                        Ok::<_, q1tsim::error::Error>(bad) }).ok() };
+                verdict = match res
+                {
+                    None => "differs panic".to_string(),
+                    Some(Err(e)) => format!("differs {}", show_err(&e)),
+                    Some(Ok(Some((run, sh, w)))) => format!("differs after-run-{} shot-{} register={:#b}: the upper bits must be 0 (the shot's state was not the one of its word)", run, sh, w),
+                    Some(Ok(None)) => "same".to_string()
+                };
+            }
+            out.case(&format!("prop | feedback-continuation | {} qubits {} shots {} variant {} seed {}", nq, shots, if stab { "stabilizer" } else { "vector" }, variant, seed), &verdict);
+        }
+    }
     // "asking for results or re-executing before any execution is an error" - also through the C interface
     {
         use q1tsim::ffi;
